@@ -76,7 +76,7 @@ def confirm_by_replay_copy(run, tr, prefixes, sig, what):
         gconf = None
         for j, (f, evs) in enumerate(members):
             conf = gconf
-            if j < 2 and budget > 0:
+            if j == 0 or (j < 2 and budget > 0):
                 budget -= 1
                 rp = os.path.join(run.work, "replay_copy_%s.json" % f["case"])
                 json.dump(evs[0], open(rp, "w"))
